@@ -8,7 +8,7 @@ namespace hostile
 {
 using namespace seg;
 
-static const size_t kSmallMax = 1024; // configured maximum used for the hostile families
+static const size_t kSmallMax = 256;  // configured maximum used for the hostile families
 
 inline std::string kv(const char *k, uint64_t v) { return std::string(" ") + k + "=" + std::to_string(v); }
 
@@ -182,7 +182,7 @@ inline int evalHostile(Ctx &cx, char epc, const Hdr &h, int mode, uint8_t filler
   r.evaluations++;
   size_t max = ep.setMax(kSmallMax);
   size_t bound = 2 * max + 14; // one frame (<= max + 14-byte header) in the receive buffer + <= max reassembled
-  size_t chunk = deep ? std::max<size_t>(512, max / 16) : 512;
+  size_t chunk = deep ? std::max<size_t>(128, max / 4) : 128;
   size_t target = deep ? bound + 2 * chunk : 3 * kSmallMax + 64;
   char kb[160];
   snprintf(kb, sizeof kb, "%s ep=%c b0=%u m=%d lc=%d ext=%llu mode=%d fill=%u", deep ? "deep" : "hostile", epc, h.b0, h.masked ? 1 : 0, h.lc,
@@ -197,7 +197,7 @@ inline int evalHostile(Ctx &cx, char epc, const Hdr &h, int mode, uint8_t filler
     r.distinct_nontrivial++;
   int v = 0;
   size_t fed = 0, worst = 0;
-  ep.open();
+  ep.openFast();
   allochook::maxReq = 0;
   allochook::track = true;
   bool stop = false;
@@ -209,10 +209,24 @@ inline int evalHostile(Ctx &cx, char epc, const Hdr &h, int mode, uint8_t filler
     if (ret > bound)
     {
       allochook::track = false;
-      r.violation("buffer-bounded", E + ":" + headerSig(h, max, false), kase,
+      // name the frame the endpoint is actually waiting for (first bytes of its own receive buffer)
+      Bytes ph = ep.pendingHead();
+      std::string what = "fragments>max";
+      if (ph.size() >= 2)
+      {
+        Hdr w;
+        w.b0 = uint8_t(ph[0]);
+        w.masked = uint8_t(ph[1]) & 0x80;
+        w.lc = uint8_t(ph[1]) & 0x7f;
+        size_t extLen = w.lc == 126 ? 2 : w.lc == 127 ? 8 : 0;
+        for (size_t i = 0; i < extLen && 2 + i < ph.size(); ++i)
+          w.ext = (w.ext << 8) | uint8_t(ph[2 + i]);
+        what = headerSig(w, max, false);
+      }
+      r.violation("buffer-bounded", E + ":" + what, kase,
                   "after " + std::to_string(fed) + " bytes fed the endpoint retains " + std::to_string(ret) + " bytes for the session (maximum in force " +
-                    std::to_string(max) + ", bound 2*max+14=" + std::to_string(bound) + "); header " + vr::hex(hdr) +
-                    " can never become an acceptable frame yet it is awaited, not failed");
+                    std::to_string(max) + ", bound 2*max+14=" + std::to_string(bound) + "); fed header " + vr::hex(hdr) +
+                    ", the endpoint's buffer starts " + vr::hex(ph) + ": a frame that can never become acceptable is awaited instead of being failed");
       ++v;
       stop = true;
     }
@@ -346,7 +360,7 @@ inline int evalUtf8(Ctx &cx, char epc, const Bytes &text, size_t split)
     r.distinct_nontrivial++;
   r.counters[err ? "utf8_invalid_cases" : "utf8_valid_cases"]++;
   int v = 0;
-  ep.open();
+  ep.openFast();
   try
   {
     std::vector<Frame> fr;
